@@ -43,6 +43,9 @@ func H_C17_wrap(v *V) {
 		d += "w"
 	}
 	d += c17Text(v, v.Shape("n"), v.Shape("classes"))
+	for i := 0; i < v.Shape("tail"); i++ {
+		d += "t"
+	}
 	o := wrapText(d, width, prefix)
 	v.ObserveStr("o", o)
 	v.Reach("wrapped")
